@@ -34,7 +34,11 @@ What is proved, for ALL option values, schemas and documents:
 
 OPEN — carried by K/O only: the exact amount of indentation on each line (two spaces per open object type: K compares the
 `indent` / `dedent` calls one by one and the `ops` stream the writer's buffer; no theorem states the column); plugins of the
-resolver printer; that AST positions are token starts (C07 / the end-to-end O).
+resolver printer; that AST positions are token starts (C07 / the end-to-end O; violated after astral characters, open known
+finding `e2e:original-column-counts-code-points`); the selection-set positions `sps` are an input of the model; the layout
+functions `layoutTy` / `RStmt.text` / `opHeaderText` that give "the text of the C01/C09/C12/C14 models" are definitions of this
+property (`Lemmas/PrintMapBody*`), tied to the code chunk by chunk by K `sites:optype:calls` / `sites:opjs:calls`. See also the
+OPEN blocks of `Props/C06.lean` and `Props/C06Sites.lean`.
 -/
 namespace NitroVerif.PrintMap
 open NitroVerif.Gql NitroVerif.DeclCfg NitroVerif.SourceMap
